@@ -728,4 +728,94 @@ theorem before_loop_defined (args : List Str) (fs r : FS) (h : Before0f74657.loo
     · rw [h1] at hx; injection hx with hc hf; subst hc; subst hf
       rw [loop_next_true h2]; exact ih h
 
+/-- `parseArgs` = specification on `clean` vectors with representable definitions (restated in Props) -/
+theorem parseArgs_eq_gcc (args : List Str) (h : clean args = true)
+    (hd : ∀ d ∈ (gcc args {}).defines, defOk d = true) :
+    parseArgs args = (gcc args {}).toFS := by
+  have hl := loop_eq_gcc args h {}
+  have h0 : ({} : Opts).toRaw = ({} : FS) := rfl
+  rw [h0] at hl
+  simp only [parseArgs, hl, Opts.toRaw, Opts.toFS, fsSetDefines_joinDefs _ hd]
+
+open Import
+
+/-! ### import level -/
+
+theorem fromNative_id (d : Str) (h : d.contains '\\' = false) : fromNative d = d := by
+  induction d with
+  | nil => rfl
+  | cons c t ih =>
+    simp only [List.contains_cons, Bool.or_eq_false_iff, beq_eq_false_iff_ne, ne_eq] at h
+    have hc : c ≠ '\\' := fun hc => h.1 hc.symm
+    simp only [fromNative, List.map_cons, hc, if_false] at ih ⊢
+    rw [ih h.2]
+
+theorem fsSetIncludePaths_eq_spec (base : Str) (l : List Str) (h : ∀ d ∈ l, plainInc base d = true)
+    (found out : List Str) :
+    fsSetIncludePaths base l found out = out ++ incSpec base l found := by
+  induction l generalizing found out with
+  | nil => simp [fsSetIncludePaths, incSpec]
+  | cons d r ih =>
+    have hr : ∀ x ∈ r, plainInc base x = true := fun x hx => h x (by simp [hx])
+    have hd := h d (by simp)
+    simp only [plainInc, Bool.and_eq_true, Bool.not_eq_true', Bool.or_eq_true, Option.isNone_iff_eq_none] at hd
+    obtain ⟨⟨⟨hne, hpct⟩, hbs⟩, habs⟩ := hd
+    have hnat := fromNative_id d hbs
+    unfold fsSetIncludePaths
+    simp only [hne, Bool.false_eq_true, if_false, hpct, hnat]
+    by_cases hf : found.contains d = true
+    · simp only [hf, if_true, incSpec]
+      exact ih hr found out
+    · simp only [hf, Bool.false_eq_true, if_false, incSpec]
+      by_cases ha : incIsAbsolute d = true
+      · simp only [ha, if_true, resolveInc]
+        rw [ih hr]; simp
+      · rcases habs with habs | ⟨hvar, hnz⟩
+        · exact absurd habs ha
+        · simp only [ha, Bool.false_eq_true, if_false, resolveInc, hvar, Option.isSome_none, hnz]
+          rw [ih hr]; simp
+
+theorem sysSpec_abs (base : Str) (ds : List Str) (h : ∀ d ∈ ds, incIsAbsolute d = true) : sysSpec base ds = ds := by
+  induction ds with
+  | nil => rfl
+  | cons d r ih =>
+    have hd := h d (by simp)
+    have hr := ih (fun x hx => h x (by simp [hx]))
+    simp only [sysSpec, List.map_cons, hd, if_true] at hr ⊢
+    rw [hr]
+
+theorem importEntries_step (e : Entry) (f : Str) (args : List Str) (rest : List Entry) (errs : Nat) (acc : List FileSetting)
+    (hf : e.file = some f) (ha : entryArgs e.args = some args) (hacc : acceptFile (fromNative f) = true) :
+    importEntries (e :: rest) errs acc =
+      importEntries rest errs (acc ++ [⟨entryPath e.dir f, (acc.filter fun x => x.path = entryPath e.dir f).length,
+        { parseArgs args with includePaths := fsSetIncludePaths (entryDir e.dir) (parseArgs args).includePaths [] [] }⟩]) := by
+  rw [importEntries]
+  simp only [ha, hf, hacc, Bool.not_true, Bool.false_eq_true, if_false]
+
+theorem importEntries_eq_spec (es : List Entry) (h : ∀ e ∈ es, goodEntry e = true) (errs : Nat) (acc : List FileSetting) :
+    importEntries es errs acc = ⟨true, errs, specImport es acc⟩ := by
+  induction es generalizing acc with
+  | nil => simp [importEntries, specImport]
+  | cons e rest ih =>
+    have hr : ∀ x ∈ rest, goodEntry x = true := fun x hx => h x (by simp [hx])
+    have he := h e (by simp)
+    unfold goodEntry at he
+    cases hf : e.file with
+    | none => simp [hf] at he
+    | some f =>
+      cases ha : entryArgs e.args with
+      | none => simp [hf, ha] at he
+      | some args =>
+        simp only [hf, ha, Bool.and_eq_true, List.all_eq_true] at he
+        obtain ⟨⟨⟨⟨hacc, hclean⟩, hdef⟩, hinc⟩, hsys⟩ := he
+        have hp := parseArgs_eq_gcc args hclean hdef
+        rw [importEntries_step e f args rest errs acc hf ha hacc, hp]
+        have hi : fsSetIncludePaths (entryDir e.dir) (gcc args {}).toFS.includePaths [] [] =
+            incSpec (entryDir e.dir) (gcc args {}).includes [] := by
+          have := fsSetIncludePaths_eq_spec (entryDir e.dir) (gcc args {}).includes hinc [] []
+          simpa [Opts.toFS] using this
+        rw [hi, ih hr]
+        simp only [specImport, hf, ha, specSettings, sysSpec_abs _ _ hsys]
+        rfl
+
 end Cppcheck.GccArgs
